@@ -1347,16 +1347,24 @@ class CParser:
 
     def _parse_decl_suffixes(self, decl: c_ast.Node) -> c_ast.Node:
         """Parse a chain of array/function suffixes and attach them to decl."""
+        # The suffixes are chained up first and spliced onto the declarator
+        # once: attaching them one by one walks the whole chain every time.
+        head = tail = None
         while True:
             if self._peek_type() == "LBRACKET":
-                decl = self._type_modify_decl(decl, self._parse_array_decl(decl))
-                continue
-            if self._peek_type() == "LPAREN":
-                func = self._parse_function_decl(decl)
-                decl = self._type_modify_decl(decl, func)
-                continue
-            break
-        return decl
+                suffix = self._parse_array_decl(decl)
+            elif self._peek_type() == "LPAREN":
+                suffix = self._parse_function_decl(decl)
+            else:
+                break
+            if tail is None:
+                head = suffix
+            else:
+                tail.type = suffix
+            tail = suffix
+        if head is None:
+            return decl
+        return self._type_modify_decl(decl, head)
 
     # BNF: array_decl : '[' array_specifiers? assignment_expression? ']'
     def _parse_array_decl(self, base_decl: c_ast.Node) -> c_ast.Node:
